@@ -1,13 +1,33 @@
 /* Test merge DSO for src/mtbl_merge: concatenates the two values (order-sensitive, so the
- * harness can tell whether every value was folded exactly once). Prefix: vfm */
+ * harness can tell whether every value was folded exactly once). Prefix: vfm
+ * The DSO has an init function; the closure it returns must be what the merge function and the
+ * free function receive (mtbl_merge(1)).  A merge call that gets anything else marks its output
+ * with the byte 0x21 ('!'), which no source value contains, so the check sees a wrong value. */
 #include <stdint.h>
 #include <stdlib.h>
 #include <string.h>
+struct vfm_clos { uint32_t magic; long calls; };
+void *vfm_init_func(void) {
+  struct vfm_clos *c = malloc(sizeof *c);
+  c->magic = 0x5eed600du;
+  c->calls = 0;
+  return c;
+}
+void vfm_free_func(void *clos) {
+  struct vfm_clos *c = clos;
+  if (c == NULL || c->magic != 0x5eed600du) abort(); /* the tool must hand back what init returned */
+  c->magic = 0;
+  free(c);
+}
 void vfm_func(void *clos, const uint8_t *key, size_t len_key, const uint8_t *v0, size_t l0, const uint8_t *v1, size_t l1,
               uint8_t **merged, size_t *len_merged) {
-  (void)clos; (void)key; (void)len_key;
-  *len_merged = l0 + l1;
-  *merged = malloc(l0 + l1 ? l0 + l1 : 1);
+  struct vfm_clos *c = clos;
+  int bad = (c == NULL || c->magic != 0x5eed600du);
+  (void)key; (void)len_key;
+  if (!bad) c->calls++;
+  *len_merged = l0 + l1 + (bad ? 4 : 0);
+  *merged = malloc(*len_merged ? *len_merged : 1);
   memcpy(*merged, v0, l0);
   memcpy(*merged + l0, v1, l1);
+  if (bad) memset(*merged + l0 + l1, 0x21, 4);
 }
